@@ -196,25 +196,113 @@ pub fn gen_c01(sh: &mut Shards, o: &Opts) -> serde_json::Value {
         }
         evals += (w * h) as u64;
     }
+    // partly grey pictures: neutral chroma in the top rows (or the bottom rows, or the left half) and colour elsewhere.
+    // A "this image is greyscale" early-out that looks at a prefix of the chroma buffers (stride and padding included)
+    // is fooled by exactly these.  Every storage / range / matrix, several widths (planes are padded to 64 bytes).
+    for (ci, (c, st)) in all_matrix_cfgs().into_iter().enumerate() {
+        if !(c.n == 8 || c.n == 10 || (o.thorough && c.n == 16)) {
+            continue;
+        }
+        let mut rng = Rng::new(o.seed, 0x0101_6e00 + ci as u64);
+        let mid = 1u16 << (c.n - 1);
+        let maxc = (1u64 << c.n) - 1;
+        for (k, &(w, h)) in [(8usize, 6usize), (24, 5), (40, 4), (64, 3), (3, 9)].iter().enumerate() {
+            let mode = (ci + k) % 3;
+            let px: Vec<[u16; 3]> = (0..w * h)
+                .map(|i| {
+                    let (x, y) = (i % w, i / w);
+                    let grey = match mode {
+                        0 => y < (h + 1) / 2,
+                        1 => y >= h / 2,
+                        _ => x < w / 2,
+                    };
+                    if grey {
+                        [rng.below(maxc + 1) as u16, mid, mid]
+                    } else {
+                        [rng.below(maxc + 1) as u16, rng.below(maxc + 1) as u16, rng.below(maxc + 1) as u16]
+                    }
+                })
+                .collect();
+            if st == 8 {
+                emit_dec::<u8>(sh, &c, st, &px, w, h, "dec");
+            } else {
+                emit_dec::<u16>(sh, &c, st, &px, w, h, "dec");
+            }
+            evals += (w * h) as u64;
+        }
+    }
+    // large SUBSAMPLED frames with vertical and horizontal contrast (random chroma): row-band / tile splits of a decoder
+    // must keep every pixel on the chroma sample of its own block.  Sizes chosen so that even splits into 2..16 bands,
+    // and bands of 2^18 / width rows, start on odd rows for some of them.
+    if !o.mini {
+        let sizes: &[(usize, usize)] = if o.thorough { &[(640, 480), (1366, 768), (1920, 1084), (1920, 1086), (2048, 2050), (800, 600)] } else { &[(640, 480), (1366, 768), (1920, 1084), (2048, 2050)] };
+        for (k, &(w, h)) in sizes.iter().enumerate() {
+            for (j, &(sx, sy)) in [(1u8, 1u8), (0, 1), (1, 0)].iter().enumerate() {
+                if !o.thorough && (k + j + o.seed as usize) % 3 == 2 && sy == 0 {
+                    continue;
+                }
+                let n = [8u8, 10, 12, 16][(k + j) % 4];
+                let c = Cfg { mc: MC_STD[(k * 3 + j) % 7], tc: crate::util::TC_LBL[(k + j) % 18], cp: crate::util::CP_LBL[(k + 2 * j) % 13], full: (k + j) % 2 == 0, n, ssx: sx, ssy: sy };
+                let mut rng = Rng::new(o.seed, 0x0101_5b00 + (k * 8 + j) as u64);
+                let maxc = (1u64 << n) - 1;
+                let px: Vec<[u16; 3]> = (0..w * h).map(|_| [rng.below(maxc + 1) as u16, rng.below(maxc + 1) as u16, rng.below(maxc + 1) as u16]).collect();
+                let idx = crate::util::probe_indices(w * h, w, &mut rng);
+                if n == 8 && k % 2 == 0 {
+                    emit_dec_probe::<u8>(sh, &c, 8, &px, w, h, &idx);
+                } else {
+                    emit_dec_probe::<u16>(sh, &c, 16, &px, w, h, &idx);
+                }
+                evals += (w * h) as u64;
+            }
+        }
+    }
     serde_json::json!({"pixels": evals, "configs": cfgs})
 }
 
 fn emit_dec_probe<T: Pixel>(sh: &mut Shards, c: &Cfg, st: u8, px: &[[u16; 3]], w: usize, h: usize, idx: &[usize]) {
-    let sel: Vec<[u16; 3]> = idx.iter().map(|&i| px[i]).collect();
+    // the triple a pixel's result may depend on: its own luma and the chroma sample of its block (the top-left pixel's)
+    let eff = |i: usize| -> [u16; 3] {
+        let (x, y) = (i % w, i / w);
+        let b = ((y >> c.ssy) << c.ssy) * w + ((x >> c.ssx) << c.ssx);
+        [px[i][0], px[b][1], px[b][2]]
+    };
+    let pads = if w * h > 4096 { [(0usize, 0usize), (5, 1), (0, 0)] } else { [(0, 0); 3] };
+    let built = crate::util::guard(|| crate::frames::yuv444_padded::<T>(px, w, h, c, pads));
+    let whole: Result<Rgb, String> = match built {
+        Ok(Ok(y)) => crate::util::guard(|| Rgb::try_from(&y)).map_err(|p| p.to_string()).and_then(|r| r.map_err(|e| crate::frames::err_name_conv(e).to_string())),
+        other => Err(format!("ctor:{}", other.map(|r| r.map(|_| "").unwrap_or_else(crate::frames::err_name_yuv)).unwrap_or("panic"))),
+    };
+    // screen (untrusted, selects probe positions only): the same picture decoded in independent bands of 2^ssy rows
+    let mut idx: Vec<usize> = idx.to_vec();
+    if let Ok(rgb) = &whole {
+        if rgb.data().len() == px.len() && w * h > 4096 {
+            let bh = 1usize << c.ssy;
+            let mut pieces: Vec<[f32; 3]> = Vec::with_capacity(px.len());
+            let mut ok = true;
+            for r in (0..h).step_by(bh) {
+                let rows = &px[r * w..(r + bh).min(h) * w];
+                match crate::util::guard(|| yuv444::<T>(rows, w, rows.len() / w, c).ok().and_then(|y| Rgb::try_from(&y).ok())) {
+                    Ok(Some(p)) if p.data().len() == rows.len() => pieces.extend_from_slice(p.data()),
+                    _ => {
+                        ok = false;
+                        break;
+                    }
+                }
+            }
+            if ok {
+                idx.extend(crate::util::diff_positions(rgb.data(), &pieces, 48));
+                idx.sort_unstable();
+                idx.dedup();
+            }
+        }
+    }
+    let sel: Vec<[u16; 3]> = idx.iter().map(|&i| eff(i)).collect();
     let mut s = String::new();
     let _ = write!(s, "\"ev\":\"dec\",\"probe\":1,\"cfg\":{},\"st\":{st},\"w\":{w},\"h\":{h},\"px\":", c.json());
     list(&mut s, &sel, |o, p| {
         let _ = write!(o, "[{},{},{}]", p[0], p[1], p[2]);
     });
-    let yuv: Yuv<T> = match crate::util::guard(|| yuv444::<T>(px, w, h, c)) {
-        Ok(Ok(y)) => y,
-        other => {
-            let _ = write!(s, ",\"res\":\"ctor:{}\"", other.map(|r| r.map(|_| "").unwrap_or_else(crate::frames::err_name_yuv)).unwrap_or("panic"));
-            sh.emit(&s);
-            return;
-        }
-    };
-    match crate::util::guard(|| Rgb::try_from(&yuv)).map_err(|p| p.to_string()).and_then(|r| r.map_err(|e| crate::frames::err_name_conv(e).to_string())) {
+    match whole {
         Ok(rgb) if rgb.data().len() == px.len() => {
             let out: Vec<[f32; 3]> = idx.iter().map(|&i| rgb.data()[i]).collect();
             let _ = write!(s, ",\"res\":\"ok\",\"wo\":{},\"ho\":{},\"tco\":{},\"cpo\":{},\"out\":", rgb.width(), rgb.height(), rgb.transfer() as u8, rgb.primaries() as u8);
